@@ -197,3 +197,23 @@ class Index:
 
 def clone(spec):
     return copy.deepcopy(spec)
+
+
+def spec_for_cfg(spec, cfg):
+    """Configuration-specific view of a spec.  back11 does not compile a machine-level
+    internal_transition_table whose events are processed (const-qualification error inside
+    process_fsm_internal_table), so for b11 the sm-internal tables are dropped - in the generated
+    source and in the reference model alike ("back11 where it accepts the same declarations")."""
+    if cfg != 'b11':
+        return spec
+    sp = copy.deepcopy(spec)
+
+    def strip(m):
+        m['internal'] = []
+        for s in m['states'].values():
+            if s['kind'] == 'sub':
+                strip(s['machine'])
+    strip(sp['root'])
+    for k in list(sp.keys()):
+        pass
+    return sp
